@@ -13,6 +13,9 @@ pub struct ExHM<K, V>(StagedMap<K, V>);
 pub uninterp spec fn de_size(e: DeltaElements) -> usize;
 pub uninterp spec fn snap_size(s: SnapshotData) -> usize;
 pub assume_specification [DeltaElements::size_approx] (e: &DeltaElements) -> (r: usize) ensures r == de_size(*e);
+#[verifier::external_type_specification] #[verifier::external_body] pub struct ExCurrentObjects(CurrentObjects);
+/// lookup of a publisher's objects in the snapshot (result unconstrained here; verified in unit c11_snapshot)
+pub assume_specification<'a> [SnapshotData::get_publisher_objects] (s: &'a SnapshotData, p: &PublisherHandle) -> (r: Option<&'a CurrentObjects>);
 pub assume_specification [SnapshotData::size_approx] (s: &SnapshotData) -> (r: usize) ensures r == snap_size(*s);
 /// the clock is an input: whether a delta is younger / older than N seconds when the update is computed
 pub uninterp spec fn is_younger(d: DeltaData, secs: i64) -> bool;
@@ -51,7 +54,9 @@ pub type PathBuf = std::path::PathBuf;
 pub struct StagedMap<K, V>(pub Vec<(K, V)>);
 pub type HashMap<K, V> = StagedMap<K, V>;
 impl DeltaElements { pub fn size_approx(&self) -> usize { unimplemented!() } }
-impl SnapshotData { pub fn size_approx(&self) -> usize { unimplemented!() } pub fn apply_delta(&mut self, _p: &PublisherHandle, _d: DeltaElements) { unimplemented!() } }
+impl SnapshotData { pub fn size_approx(&self) -> usize { unimplemented!() } pub fn apply_delta(&mut self, _p: &PublisherHandle, _d: DeltaElements) { unimplemented!() }
+    pub fn get_publisher_objects<'a>(&'a self, _p: &PublisherHandle) -> Option<&'a CurrentObjects> { unimplemented!() } }
+pub struct CurrentObjects(pub u8);
 impl DeltaElements { pub fn append(&mut self, _o: DeltaElements) { unimplemented!() } }
 impl From<StagedElements> for DeltaElements { fn from(_s: StagedElements) -> Self { unimplemented!() } }
 ''')
